@@ -393,38 +393,59 @@ def rule_A7(repo: Repo) -> RuleResult:
     res = RuleResult("A7", "columns used as keys are excluded from the values; _values_to_group reads only value_columns")
     api = repo.mod(API)
     f = api.func("DataFrameGroupBy._from_by_keys")
-    txt = [norm(s) for s in walk_no_nested(f.node) if isinstance(s, ast.stmt)]
+    obj = [p for p in f.named_params if p not in ("cls", "self")][0]
+    # roles by dataflow: the constructor call cls(obj, grouper=..., value_columns=<V>); V's definition; the key-column set K
+    ctor = [n for n in walk_no_nested(f.node) if isinstance(n, ast.Call) and norm(n.func) == "cls"]
+    vc_kw = next((k.value for c in ctor for k in c.keywords if k.arg == "value_columns"), None)
+    if ctor and isinstance(vc_kw, ast.Name):
+        res.ok(f, ctor[0], norm(ctor[0]), "value_columns handed to the constructor")
+    else:
+        res.bad(f, ctor[0] if ctor else f.node, norm(ctor[0]) if ctor else "cls(...)", "value_columns is not handed to the constructor")
+        return _a7_tail(repo, res)
+    vname = vc_kw.id
     vc = [n for n in walk_no_nested(f.node) if isinstance(n, ast.Assign)
-          and any(isinstance(t, ast.Name) and t.id == "value_columns" for t in n.targets)]
+          and any(isinstance(t, ast.Name) and t.id == vname for t in n.targets)]
+    kset = None
     ok = False
     if vc and isinstance(vc[0].value, ast.ListComp):
         lc = vc[0].value
-        src = norm(lc.generators[0].iter)
-        conds = [norm(c) for c in lc.generators[0].ifs]
-        ok = src.endswith(".columns") and any("not in columns_used_as_keys" in c for c in conds)
+        g = lc.generators[0]
+        src_ok = norm(g.iter) == f"{obj}.columns"
+        for c in g.ifs:
+            if isinstance(c, ast.Compare) and len(c.ops) == 1 and isinstance(c.ops[0], ast.NotIn) \
+                    and isinstance(c.comparators[0], ast.Name) and norm(c.left) == norm(g.target):
+                kset = c.comparators[0].id
+        ok = src_ok and kset is not None and norm(lc.elt) == norm(g.target)
     if ok:
         res.ok(f, vc[0], norm(vc[0]), "columns minus key columns")
     else:
         res.bad(f, vc[0] if vc else f.node, norm(vc[0]) if vc else "value_columns",
                 "value columns are not computed as the frame's columns minus the columns used as keys")
-    # every key taken from a column is recorded
-    appends = [n for n in walk_no_nested(f.node) if isinstance(n, ast.Call) and norm(n.func) == "grouping_keys.append"
-               and n.args and isinstance(n.args[0], ast.Subscript) and norm(n.args[0].value) == "obj"]
+        return _a7_tail(repo, res)
+    # every key taken from a column (keys.append(obj[key])) is recorded in K in the same block
+    appends = [n for n in walk_no_nested(f.node) if isinstance(n, ast.Call) and isinstance(n.func, ast.Attribute)
+               and n.func.attr == "append" and n.args and isinstance(n.args[0], ast.Subscript) and norm(n.args[0].value) == obj]
+    if not appends:
+        raise AnalysisError("A7: no key taken from a column found in _from_by_keys")
     for a in appends:
         blk = None
         for n in walk_no_nested(f.node):
-            if isinstance(n, (ast.If,)) and any(isinstance(s, ast.Expr) and s.value is a for s in n.body):
+            if isinstance(n, (ast.If,)) and any(isinstance(s_, ast.Expr) and s_.value is a for s_ in n.body):
                 blk = n
-        sib = [norm(s) for s in (blk.body if blk else [])]
-        if any(s.startswith("columns_used_as_keys.add(") for s in sib):
-            res.ok(f, a, norm(a), "recorded in columns_used_as_keys")
+        sib = [s_ for s_ in (blk.body if blk else [])]
+        recorded = any(isinstance(s_, ast.Expr) and isinstance(s_.value, ast.Call) and isinstance(s_.value.func, ast.Attribute)
+                       and s_.value.func.attr in ("add", "append") and isinstance(s_.value.func.value, ast.Name)
+                       and s_.value.func.value.id == kset and s_.value.args
+                       and norm(s_.value.args[0]) == norm(a.args[0].slice) for s_ in sib)
+        if recorded:
+            res.ok(f, a, norm(a), f"recorded in {kset}")
         else:
             res.bad(f, a, norm(a), "a column is used as a key without being recorded as such: it would also be aggregated")
-    ctor = [n for n in walk_no_nested(f.node) if isinstance(n, ast.Call) and norm(n.func) == "cls"]
-    if ctor and any(k.arg == "value_columns" and norm(k.value) == "value_columns" for k in ctor[0].keywords):
-        res.ok(f, ctor[0], norm(ctor[0]), "value_columns handed to the constructor")
-    else:
-        res.bad(f, ctor[0] if ctor else f.node, norm(ctor[0]) if ctor else "cls(...)", "value_columns is not handed to the constructor")
+    return _a7_tail(repo, res)
+
+
+def _a7_tail(repo: Repo, res: RuleResult) -> RuleResult:
+    api = repo.mod(API)
     v = api.func("DataFrameGroupBy._values_to_group")
     t = " ".join(norm(s) for s in v.node.body)
     if "self.value_columns" in t and "self._obj.columns" not in t:
@@ -539,6 +560,9 @@ def _forwarding(repo: Repo, res: RuleResult, m: Func, params: List[str], callee_
                     res.bad(m, x, construct,
                             f"{m.name} accepts {p!r} but the arguments bound for the deferred call of "
                             f"{x.func.value.args[0].id} do not contain it: the kernel runs without the caller's {p}")
+    # locals that hold a grouping engine built in this function:  g = GroupBy(...)
+    grouper_vars = {x.targets[0].id for x in walk_no_nested(m.node) if isinstance(x, ast.Assign) and len(x.targets) == 1
+                    and isinstance(x.targets[0], ast.Name) and isinstance(x.value, ast.Call) and norm(x.value.func) == "GroupBy"}
     for rec in ev.calls:
         call = rec.node
         callees: List[Func] = []
@@ -553,7 +577,7 @@ def _forwarding(repo: Repo, res: RuleResult, m: Func, params: List[str], callee_
             c = attr_chain(call.func)
             if c and len(c) >= 2 and c[-2] == "_grouper" and c[-1] in gb:
                 callees = [gb[c[-1]]]
-            elif c and len(c) == 2 and c[0] in ("grouper",) and c[1] in gb:
+            elif c and len(c) == 2 and c[0] in grouper_vars and c[1] in gb:
                 callees = [gb[c[1]]]
             elif c and len(c) == 2 and c[0] == "GroupBy" and c[1] in gb:
                 callees = [gb[c[1]]]
@@ -566,7 +590,7 @@ def _forwarding(repo: Repo, res: RuleResult, m: Func, params: List[str], callee_
                 continue
             via_getattr = isinstance(call.func, ast.Name) and call.func.id in getattr_vars
             skip_self = None
-            if via_getattr or (attr_chain(call.func) or ("",))[0] in ("grouper",) or \
+            if via_getattr or (attr_chain(call.func) or ("",))[0] in grouper_vars or \
                     (isinstance(rec.callee, tuple)) and callee.named_params[:1] == ["self"]:
                 skip_self = True
             if attr_chain(call.func) and attr_chain(call.func)[0] == "GroupBy" and isinstance(rec.callee, FuncRef):
